@@ -181,7 +181,17 @@ func derefPtr(t types.Type) (types.Type, bool) {
 }
 
 func (e *cenv) readAddr(a *Addr) cval {
-	return cval{t: e.vc.read(e.cur, a), sort: a.Sort, typ: a.Typ, addr: a}
+	t := e.vc.read(e.cur, a)
+	// heap typing: an integer-typed location holds a value of its type's range
+	// (only for closed terms; reads under a quantifier are left alone)
+	if a.Typ != nil && !strings.Contains(t, "!q") {
+		if rf := e.vc.rangeFact(t, a.Typ); rf != "true" {
+			if _, isInt := basicRange(a.Typ); isInt {
+				e.vc.typingFact(rf)
+			}
+		}
+	}
+	return cval{t: t, sort: a.Sort, typ: a.Typ, addr: a}
 }
 
 func (e *cenv) ident(name string) cval {
@@ -465,6 +475,10 @@ func ghostSort(s string) string {
 		return "(Array Int Int)"
 	case "seq":
 		return "(Array Int Int)"
+	case "ifaceset":
+		return "(Array Iface Bool)"
+	case "ifacemap":
+		return "(Array Iface Iface)"
 	}
 	return s
 }
@@ -524,6 +538,8 @@ func (e *cenv) quant(x *EQuant) cval {
 			cv = cval{t: name, sort: "Int"}
 		case "bool":
 			cv = boolv(name)
+		case "intset", "intmap", "seq", "ifaceset", "ifacemap", "slice", "iface", "string":
+			cv = cval{t: name, sort: e.paramSort(v.Type)}
 		default:
 			t := e.resolveType(v.Type)
 			if t == nil {
@@ -737,6 +753,17 @@ func (e *cenv) callExpr(x *ECall) cval {
 			return cval{t: a.addr.Ref, sort: "Int"}
 		}
 		return e.fail("addr(%s): not a location", x.Args[0])
+	case "store":
+		// store(a, i, v): functional update of an array-sorted (ghost) value
+		if !need(3) {
+			return intv("0")
+		}
+		a, i, v := arg(0), arg(1), arg(2)
+		if v.isNil {
+			_, out := arraySorts(a.sort)
+			v = cval{t: zeroOf(out), sort: out}
+		}
+		return cval{t: fmt.Sprintf("(store %s %s %s)", a.t, i.t, v.t), sort: a.sort}
 	case "assigned":
 		// assigned(x.f): a store to the location x.f was executed since function entry
 		if !need(1) {
@@ -836,6 +863,10 @@ func (e *cenv) paramSort(t string) string {
 		return "(Array Int Bool)"
 	case "intmap", "seq":
 		return "(Array Int Int)"
+	case "ifaceset":
+		return "(Array Iface Bool)"
+	case "ifacemap":
+		return "(Array Iface Iface)"
 	}
 	if strings.HasPrefix(t, "(") {
 		return t
@@ -1023,4 +1054,26 @@ func (vc *VC) modVarsOfExpr(m Expr, fn *ssa.Function, k *FuncContract, sigs ...*
 	}
 	vc.ContractErrors = saved
 	return
+}
+
+// applyGhostSet performs "ghostset loc = expr" on state st (ghost locations only).
+func (e *cenv) applyGhostSet(gs *GhostSet, st *State) {
+	vc := e.vc
+	val := e.eval(gs.Val)
+	locs := e.locsOf(gs.Loc)
+	if len(locs) != 1 {
+		e.fail("ghostset %s: not a single ghost location", gs.Loc)
+		return
+	}
+	l := locs[0]
+	if !strings.HasPrefix(l.Var, "GF!") && !strings.HasPrefix(l.Var, "Gh!") {
+		e.fail("ghostset %s: only ghost fields / ghost globals may be assigned by a contract", gs.Loc)
+		return
+	}
+	cur := vc.look(st, l.Var)
+	if l.Ref == "" {
+		vc.set(st, l.Var, vc.hsort[l.Var], val.t)
+		return
+	}
+	vc.set(st, l.Var, vc.hsort[l.Var], fmt.Sprintf("(store %s %s %s)", cur, l.Ref, val.t))
 }
